@@ -31,7 +31,8 @@ CLAIMS.update({
               "memoisation and mutated mutable defaults are excluded structurally. Batch clause: for the documented trailing-axes functions "
               "(Fourier wrappers, temporal power spectrum, profile integrals) nothing on the backward slice of the result reads a leading "
               "axis (shape index >= 0, len, size, non-negative or all-axes axis argument, subscripts not starting with an Ellipsis); the "
-              "rank-dispatching image functions take no whole-stack reduction on their stack path (per-item results); the centroid moments are decided by C15."),
+              "rank-dispatching image functions, and the helpers they hand the whole stack to, take no all-axes reduction or element move "
+              "(fftshift / flip / roll without axes) on their stack path (per-item results); the centroid moments are decided by C15."),
         note=("Trusted: CPython ast; the explicit numpy view / in-place tables in sa/fx.py; library calls outside those tables do not "
               "modify their arguments; parameters documented as int/float/str/bool/tuple are immutable scalars. A positive control "
               "(embedded snippet) must fire on every run.")),
@@ -57,7 +58,8 @@ CLAIMS.update({
         text=("Decides: unit-magnification angular spectrum = F^-1 exp(z L) F with L input-independent and imaginary, with exactly "
               "inverse ft2/ift2 (group law, -z undoes +z, z = 0 returns the input); every propagator's normal form equals the textbook "
               "discretisation of the Fresnel integral (kernel sign, 1/(i lambda z), grids), and the two-step propagator equals two "
-              "chained one-step propagations. Not decided: Gaussian-beam/Airy references, magnification round trip up to a phase."),
+              "chained one-step evaluations (forward or mirrored kernel) whose final true sample spacing is +d2 on every feasible sign of the "
+              "step distances (orientation); a special-cased unit-magnification path is admitted only under outputSpacing == inputSpacing. Not decided: Gaussian-beam/Airy references, magnification round trip up to a phase."),
         note="Trusted: oracle text in sa/props/c11.py (Schmidt 2010); numpy ifft2 o fft2 = id; square grids."),
     "C07": dict(
         category="other", design="DESIGN.md §3 C07",
@@ -72,7 +74,7 @@ CLAIMS.update({
         technique="static analysis: power-law/Bessel normal forms of the closed-form statistics; constant, exponent and Bessel-parameter identities",
         text=("D = 2(C(0)-C(r)) term by term, D(0) = 0 exactly, saturation 2*0.0863, Kolmogorov limit and constants, PSD constant and "
               "exponents in both screen generators, r0^(-5/3) scaling, and exact agreement of the slope-covariance and KL copies are "
-              "decided as identities between normal forms for all r, r0, L0. Monotonicity / PSD-ness / the Hankel integral are not."),
+              "decided as identities between normal forms for all r, r0, L0; no result array takes the dtype of an integer argument. Monotonicity / PSD-ness / the Hankel integral are not."),
         note="Trusted: small-argument expansion of K_v; published constants compared with per-identity tolerances (1e-3, 2.5e-2)."),
 })
 
@@ -152,7 +154,8 @@ CLAIMS.update({
         text=("The returned matrix is C[:2n, 2n:] . pinv(C[2n:, 2n:], rcond) and the wrapper passes its own matrix, the first "
               "sensor's count and its conditioning argument; with the pseudo-inverse lemma this is the normal-equation solution on "
               "the retained subspace for every PSD input; every path of the wrapper recomputes from the current matrix (no stale cache). "
-              "Duplicate-sensor clause: only its structural part (the builder carries nothing from one sensor's iteration to the next); "
+              "Duplicate-sensor clause: only its structural part (the builder carries nothing from one sensor's iteration to the next and "
+              "places the four slope-kind blocks of every sensor pair at that pair's offsets, helper methods included); "
               "the covariance values themselves are C01's subject."),
         note="Trusted: B M^+ solves R M = B on range(M) and minimises the residual (pinv contract)."),
     "C03": dict(
@@ -188,7 +191,8 @@ CLAIMS.update({
         text=("In the screen modules and everything reachable from them: no global-state RNG or clock, every generator is "
               "default_rng(seed / self.random_seed), every draw is made on such a generator held in a local or instance attribute, "
               "seeds are forwarded to seeded callees, draw counts depend on size parameters and literal bounds only, no memoisation "
-              "or module state; hence same seed + parameters => identical screens and rows under any interleaving."),
+              "or module state; the screen buffer is never overwritten in place (screens handed out are values of the run); hence same seed "
+              "+ parameters => identical screens and rows under any interleaving."),
         note="Trusted: numpy Generator determinism and isolation from the global RandomState; default_rng(Generator) returns it."),
 })
 
